@@ -47,6 +47,7 @@ class ServerPool:
         counter = ctx.Value("i", 0)
         self.pool = ctx.Pool(workers, initializer=_winit, initargs=(exe, tracedir, self.flags, counter))
         self.workers = workers
+        self.meta = None     # {"spec":..., "require":..., "extra_meta":...} set by the check (for replay files)
 
     def expand_many(self, tasks, echo=False):
         """tasks: list of (history, probes).  Returns list of (hres, [PRes])."""
@@ -114,7 +115,10 @@ class Explorer:
         if self.report_props is not None and prop is not None and prop not in self.report_props:
             self.ctx.part(self.name, other_property_anomalies=1)
             return
-        replay = {"engine": "E3 emu_server", "walk": self.name, "tracedir_spec": getattr(self.ref, "spec", None),
+        pool_meta = getattr(self.pool, "meta", None) or getattr(getattr(self.pool, "pool", None), "meta", None)
+        prefix = getattr(self.pool, "prefix", [])
+        replay = {"engine": "E3 emu_server", "walk": self.name, "tracedir_spec": getattr(self.ref, "spec", None), "system": pool_meta,
+                  "prefix": [e.line() for e in prefix],
                   "flags": self.pool.flags, "history": [e.line() for e in hist],
                   "probe": probe.line() if probe is not None else None, "kind": kind,
                   "label": str(label), "detail": detail, "model_state": repr(state)}
